@@ -680,8 +680,16 @@ func (e *CoreExtension) functionRandom(args ...interface{}) (interface{}, error)
 		return nil, errors.New("max must be greater than min")
 	}
 
-	// Generate a random number in the range [min, max]
-	return min + rand.Intn(max-min+1), nil
+	// Generate a random number in the range [min, max]; max-min+1 may not be
+	// representable (random(-9223372036854775807, 9223372036854775807))
+	span := uint64(max) - uint64(min)
+	if span < math.MaxInt64 {
+		return min + rand.Intn(int(span)+1), nil
+	}
+	if span == math.MaxUint64 {
+		return int(rand.Uint64()), nil
+	}
+	return int(uint64(min) + rand.Uint64()%(span+1)), nil
 }
 
 func (e *CoreExtension) functionMax(args ...interface{}) (interface{}, error) {
